@@ -126,6 +126,22 @@ CHECKS = {
             'CompilationError from text and from AST.',
             'Trusted: refmodel.pivot (20 lines); pivot keys are non-NULL comparable scalars.',
             'DESIGN.md section 4, C15'),
+    'C16': ('Hypothesis result-table generation over all datatypes and option combinations; invariants on the rendered text (rectangular, column offsets from the rule line, header centring/cutting, line counts, decimal-point alignment) and per-cell read-back; CSV vs text cell differential',
+            'Tables of every supported datatype with NULLs, negative and very small numbers, many currencies, empty results '
+            'and inventories are rendered under all combinations of boxed/unicode/spaced/expand/narrow/nullvalue/listsep; the '
+            'text output is parsed back structurally and every cell must read back to its value (amounts at display '
+            'precision); CSV must have a header, one record per expanded row, one field per column holding the same '
+            'formatted value.',
+            'Trusted: the cell parsers in checks/c16.py; code-point width; display context built from the table (as the loader does).',
+            'DESIGN.md section 4, C16'),
+    'C17': ('Hypothesis result-table generation (direct numberify_results calls and run_query(numberify=True) on generated ledgers) against an oracle derived from the property statement',
+            'Tables mixing plain and Amount/Position/Inventory columns with several currencies, several lots per currency, '
+            'NULLs, zero amounts, empty inventories, with and without a formatter of random per-currency precision: plain '
+            'columns, row count and order must be untouched, each amount-like column must become `name (CUR)` decimal '
+            'columns covering every currency with a non-zero amount, frequencies non-increasing, each cell the summed units '
+            '(quantized when a formatter is given) or NULL/zero when absent.',
+            'Trusted: beancount DisplayContext.quantize as the definition of display precision.',
+            'DESIGN.md section 4, C17'),
 }
 
 ALL = [f'C{i:02d}' for i in range(1, 21)]
